@@ -11,7 +11,7 @@
        resolves, every magic_nodes.registry key, every magic word name and alias of the site's
        bundled siteinfo).  {{NAME}} for arity 0, {{NAME:s1|s2|s3}} otherwise.
        Shapes come in two families:
-         Base  — empty, word, small / huge / negative / decimal / exponent number, path, nested
+         Base  — empty, zero, word, small / huge / negative / decimal / exponent number, path, nested
                  call, oversize text;
          Edge  — arithmetic that reaches the edges of the number representation, for every
                  function that evaluates its argument (#expr, #ifexpr, #ifeq, padleft width,
@@ -19,8 +19,9 @@
                  an integer literal beyond the float range (310 digits), negative zero, a
                  subnormal, division / mod by zero, rounding to a huge negative / positive number
                  of digits, ^ with a huge exponent, deeply nested parentheses.
-       A tuple of arity >= 2 contains at most one Edge shape.  The 2-ary and 3-ary levels are
-       thinned by deterministic strides in the quick tier.
+       Arity 0 and 1 are complete; for arity 2 and 3 the quick tier takes a covering design
+       (all pairs of (position, shape), see CallShapes below), the thorough tier adds the
+       product itself thinned by strides (tuples with at most one Edge shape).
        Each call also names its *small twin*: the same call with every inflated shape replaced by
        the small number; the harness bounds output, step count and allocation of a call by those
        of its twin (Twin).
@@ -44,8 +45,10 @@ EXTENDS Naturals, Sequences, FiniteSets, TLC, Json
 
 CONSTANTS Mode,        \* "calls" | "time" | "junk"
           NNames,      \* size of the generated name table
+          NPairNames,  \* the first NPairNames of them are functions that take two or more arguments in the running code
+          NFnNames,    \* the first NFnNames (>= NPairNames) resolve to a magic word / parser function at all
           MaxArity,    \* 0..3
-          Stride2,     \* keep one in Stride2 of the 2-ary shape pairs (1 = all)
+          Stride2,     \* product part: keep one in Stride2 of the 2-ary shape pairs (1 = all, 0 = no product part)
           Stride,      \* keep one in Stride of the 3-ary shape triples (1 = all)
           Phase,       \* which residue is kept (derived from the seed)
           NFormats,    \* time: size of the generated table of format codes
@@ -58,15 +61,22 @@ CONSTANTS Mode,        \* "calls" | "time" | "junk"
 VARIABLES name, shapes, lex, rep, emitted
 vars == <<name, shapes, lex, rep, emitted>>
 
-BaseShapes == <<"empty", "word", "small", "huge", "negative", "decimal", "exponent", "path", "nested", "oversize">>
+BaseShapes == <<"empty", "zero", "word", "small", "huge", "negative", "decimal", "exponent", "path", "nested">>
 EdgeShapes == <<"posinf", "neginf", "nan", "zerotimesinf", "bigint", "negzero", "subnormal", "divzero", "modzero",
                 "roundneg", "roundpos", "powhuge", "deepparen">>
-Shapes == BaseShapes \o EdgeShapes
+HeavyShapes == <<"oversize">> \o EdgeShapes
+Shapes == BaseShapes \o HeavyShapes
 NShapes == Len(Shapes)
+NBase == Len(BaseShapes)
 ShapeSet == {Shapes[i] : i \in 1..NShapes}
+BaseSet  == {BaseShapes[i] : i \in 1..NBase}
 EdgeSet  == {EdgeShapes[i] : i \in 1..Len(EdgeShapes)}
+HeavySet == {HeavyShapes[i] : i \in 1..Len(HeavyShapes)}
+\* the shapes that most often hit an unguarded corner: guaranteed in every position against EVERY other shape
+Critical == <<"empty", "zero", "negative", "huge">>
+CritSet == {Critical[i] : i \in 1..Len(Critical)}
 \* shapes whose cost must not exceed that of the small number by more than a constant factor
-Inflated == {"huge", "exponent", "oversize"} \cup EdgeSet
+Inflated == {"huge", "exponent"} \cup HeavySet
 ShapeIdx(s) == CHOOSE i \in 1..NShapes : Shapes[i] = s
 Twin(ss) == [i \in 1..Len(ss) |-> IF ss[i] \in Inflated THEN "small" ELSE ss[i]]
 HasTwin(ss) == \E i \in 1..Len(ss) : ss[i] \in Inflated
@@ -102,16 +112,42 @@ Lexemes == <<"{{", "}}", "{{{", "}}}", "|", "=", ":", "#", "<noinclude>", "</noi
 NLex == Len(Lexemes)
 Deep == 3000
 
-Weight(ss) == IF Len(ss) < 2 THEN 0
-              ELSE ShapeIdx(ss[1]) * 7 + ShapeIdx(ss[2]) * 13 + (IF Len(ss) = 3 THEN ShapeIdx(ss[3]) * 29 ELSE 0)
-StrideOf(ss) == IF Len(ss) = 2 THEN Stride2 ELSE IF Len(ss) = 3 THEN Stride ELSE 1
-Kept(n, ss) == StrideOf(ss) = 1 \/ (Weight(ss) + n) % StrideOf(ss) = Phase % StrideOf(ss)
+(* ---- the product Name x Arity x Shape^arity, and the covering design used instead of thinning it ----
 
-ShapeSeqs == {ss \in UNION {[1..k -> ShapeSet] : k \in 0..MaxArity} : Len(ss) < 2 \/ EdgeCount(ss) <= 1}
+   Arity 0 and 1 are always complete.  For arity 2 and 3 the quick tier takes, for every name that
+   is a function of two or more arguments in the running code (name <= NPairNames), a COVERING design:
+     * all pairs over the ten base shapes in every pair of positions: arity 2 is the full base
+       square; arity 3 is the orthogonal array {(a, b, a+b mod 11)} over eleven symbols, the
+       eleventh being free (a base shape rotated by the seed and the name);
+     * every heavy shape (oversize text, the thirteen edge-arithmetic shapes) in every position
+       against every critical shape (empty, zero, negative, huge) in every other position.
+   Every other name gets each-choice coverage: every shape in every position (names that are no
+   function at all — they can only be template titles — see the oversize text at arity 1 only).
+   The thorough tier adds the product itself, thinned by strides.                             *)
+Place(j, h, x, y) == CASE j = 1 -> <<h, x, y>> [] j = 2 -> <<x, h, y>> [] OTHER -> <<x, y, h>>
+Sym(n, a, b, k) == IF k < NBase THEN BaseShapes[k + 1] ELSE BaseShapes[((Phase + n + 3 * a + 7 * b) % NBase) + 1]
+OA3(n) == {<<Sym(n, a, b, a), Sym(n, a, b, b), Sym(n, a, b, (a + b) % 11)>> : a \in 0..10, b \in 0..10}
+HeavyTriples(n) == {Place(j, h, Critical[k], Critical[((k + Phase + n) % 4) + 1]) : j \in 1..3, h \in HeavySet, k \in 1..4}
+Cover2(n) == [1..2 -> BaseSet] \cup UNION {{<<c, h>>, <<h, c>>} : c \in CritSet, h \in HeavySet}
+Cover3(n) == OA3(n) \cup HeavyTriples(n)
+Rot(n) == BaseShapes[((Phase + n) % NBase) + 1]
+Each(n) == UNION {{<<s, Rot(n)>>, <<Rot(n), s>>, <<s, Rot(n), Rot(n)>>, <<Rot(n), s, Rot(n)>>, <<Rot(n), Rot(n), s>>}
+                  : s \in (IF n <= NFnNames THEN ShapeSet ELSE ShapeSet \ {"oversize"})}
+Arity01 == {<<>>} \cup {<<s>> : s \in ShapeSet}
+
+Weight(ss) == ShapeIdx(ss[1]) * 7 + ShapeIdx(ss[2]) * 13 + (IF Len(ss) = 3 THEN ShapeIdx(ss[3]) * 29 ELSE 0)
+StrideOf(ss) == IF Len(ss) = 2 THEN Stride2 ELSE Stride
+Kept(n, ss) == StrideOf(ss) = 1 \/ (Weight(ss) + n) % StrideOf(ss) = Phase % StrideOf(ss)
+\* Stride2 = 0: no product part
+Product(n) == IF Stride2 = 0 THEN {}
+              ELSE {ss \in [1..2 -> ShapeSet] \cup (IF MaxArity >= 3 THEN [1..3 -> ShapeSet] ELSE {}) : EdgeCount(ss) <= 1 /\ Kept(n, ss)}
+CallShapes(n) == Arity01 \cup (IF n <= NPairNames THEN Cover2(n) \cup Cover3(n) ELSE Each(n)) \cup Product(n)
+
+ShapeSeqs == UNION {[1..k -> ShapeSet] : k \in 0..3}
 LexSeqs   == UNION {[1..k -> {Lexemes[i] : i \in 1..NLex}] : k \in 1..MaxLex}
 
 Init == /\ emitted = FALSE
-        /\ CASE Mode = "calls" -> /\ name \in 1..NNames /\ shapes \in ShapeSeqs /\ Kept(name, shapes)
+        /\ CASE Mode = "calls" -> /\ name \in 1..NNames /\ shapes \in CallShapes(name)
                                   /\ lex = <<>> /\ rep = 1
              [] Mode = "time"  -> /\ name \in 1..NTimeFns
                                   /\ shapes \in {<<0, "plain">>}
@@ -134,6 +170,20 @@ TwinLaw == Mode = "calls" =>
              /\ Twin(shapes) \in ShapeSeqs
              /\ ~HasTwin(Twin(shapes))
              /\ Twin(Twin(shapes)) = Twin(shapes)
+\* the covering design covers what it claims (checked for the first names: the design depends on the
+\* name only through the rotation of its free choices)
+Covers(T, i, s, j, t) == \E x \in T : x[i] = s /\ x[j] = t
+CoverLaw ==
+  (Mode = "calls" /\ shapes = <<>> /\ name <= NPairNames /\ name <= 10) =>
+     /\ \A s \in ShapeSet : <<s>> \in CallShapes(name)
+     /\ \A s \in BaseSet, t \in BaseSet : Covers(Cover2(name), 1, s, 2, t)
+     /\ \A i \in 1..3, j \in 1..3 : i # j =>
+           /\ \A s \in BaseSet, t \in BaseSet : Covers(Cover3(name), i, s, j, t)
+           /\ \A c \in CritSet, t \in ShapeSet : Covers(Cover3(name), i, c, j, t)
+     /\ \A c \in CritSet, t \in ShapeSet : Covers(Cover2(name), 1, c, 2, t) /\ Covers(Cover2(name), 2, c, 1, t)
+EachLaw ==
+  (Mode = "calls" /\ shapes = <<>> /\ name > NPairNames /\ name <= NPairNames + 10) =>
+     \A s \in (IF name <= NFnNames THEN ShapeSet ELSE ShapeSet \ {"oversize"}) : \A k \in 2..3 : \A i \in 1..k : \E x \in Each(name) : Len(x) = k /\ x[i] = s
 AllHanded == <>emitted
 
 EmitCase ==
